@@ -11,6 +11,15 @@ vars == <<l, nt>>
 Trace == ndJsonDeserialize(IOEnv.OBS_FILE)
 Has(r, f) == f \in DOMAIN r
 V(c, s) == [class |-> c, sig |-> s]
+\* TLC's "=" is partial: comparing a string with a record or a boolean is an evaluation error, and
+\* the "Val" field of literals is polymorphic (string, boolean, record).  Projected ASTs are
+\* therefore compared structurally, kinds first (total).
+KindOfV(x) == LET c == SubSeq(ToString(x), 1, 1) IN IF c = "[" THEN "rec" ELSE IF c = "<" THEN "seq" ELSE "atom"
+RECURSIVE SameAst(_, _)
+SameAst(a, b) == LET ka == KindOfV(a) kb == KindOfV(b) IN
+  IF ka # kb THEN FALSE
+  ELSE IF ka = "atom" THEN ToString(a) = ToString(b)
+  ELSE DOMAIN a = DOMAIN b /\ \A f \in DOMAIN a : SameAst(a[f], b[f])
 
 Sig(r) == r.kind \o (IF r.sub = "" THEN "" ELSE "/" \o r.sub) \o (IF Has(r, "dev") THEN " " \o r.dev.what ELSE "")
 IsCommentVariant(r) == Has(r, "dev") /\ r.dev.what = "gap" /\ r.dev.comment
@@ -20,7 +29,7 @@ Verdicts(r) ==
   IF IsCommentVariant(r) THEN {}
   ELSE IF Has(o, "panic") \/ Has(o, "harness_panic") THEN {V("panic", Sig(r))}
   ELSE IF Has(o, "err") THEN {V("rejected", Sig(r))}
-  ELSE IF o.ast # r.want THEN {V("wrong-ast", Sig(r))}
+  ELSE IF ~SameAst(o.ast, r.want) THEN {V("wrong-ast", Sig(r))}
   ELSE {}
 
 \* non-trivial: the statement has at least two optional clauses / nodes beyond its head
